@@ -17,7 +17,7 @@ RULE = ('lock-step histories (<=40 ops) on ParameterTable (keyed and positional)
         'distinct by canonical op sequence / (n,ncols,transpose,kind) / shape')
 SHARDS = {'quick': 8, 'thorough': 16}
 MIN_NONTRIVIAL = {'quick': 1500, 'thorough': 50000}
-REQUIRED_CLASSES = ['rows-lazy-columns-array-mode', 'table-keyed', 'table-list', 'rows-list', 'rows-array', 'grid', 'grid-transposed', 'combination',
+REQUIRED_CLASSES = ['rows-dataframe-readouts', 'rows-lazy-columns-array-mode', 'table-keyed', 'table-list', 'rows-list', 'rows-array', 'grid', 'grid-transposed', 'combination',
                     'rows-sort', 'table-delete', 'table-overwrite', 'table-reinsert', 'table-positional-after-delete',
                     'table-empty-keyed', 'table-empty-list', 'table-emptied-by-delete',
                     'combination-items:duplicates', 'combination-items:numbers', 'combination-items:mixed', 'combination-items:numpy']
@@ -482,6 +482,31 @@ def run_rows(case, ctx):
             if not ok:
                 devs.append(dev('rows-not-preserved', dict(step=n, op=op, rows=rows[-3:], model=model[-3:])))
                 break
+    # the other read-outs of the same rows (data frame: all columns, a selection in another order, renamed columns; text)
+    if not devs and model:
+        try:
+            classes.append('rows-dataframe-readouts')
+            d, _ = observe()
+            want = {c: [plain(x) for x in d[c]] for c in cols}
+            df = rc.to_dataframe()
+            got = {c: [plain(x) for x in df[c].tolist()] for c in df.columns}
+            sel = list(reversed(cols))[:max(1, ncol - 1)]
+            df2 = rc.to_dataframe(columns=sel)
+            got2 = {c: [plain(x) for x in df2[c].tolist()] for c in df2.columns}
+            ren = {c: 'T_' + c for c in sel}
+            df3 = rc.to_dataframe(columns=ren)
+            got3 = {c: [plain(x) for x in df3[c].tolist()] for c in df3.columns}
+            compares += 3
+            if list(df.columns) != cols or got != want:
+                devs.append(dev('rows-dataframe-differs-from-the-rows', dict(columns=list(df.columns), expected_columns=cols)))
+            if list(df2.columns) != sel or got2 != {c: want[c] for c in sel}:
+                devs.append(dev('rows-dataframe-selection-differs', dict(selection=sel, columns=list(df2.columns))))
+            if list(df3.columns) != [ren[c] for c in sel] or got3 != {ren[c]: want[c] for c in sel}:
+                devs.append(dev('rows-dataframe-renamed-columns-differ', dict(renaming=ren, columns=list(df3.columns))))
+            if len(rc.to_text().splitlines()) != len(model) + 1:
+                devs.append(dev('rows-text-readout-has-another-number-of-lines', dict(lines=len(rc.to_text().splitlines()), rows=len(model))))
+        except Exception as e:
+            devs.append(dev('rows-readout-raises:' + type(e).__name__, dict(exc=repr(e)[:200])))
     return outcome(classes=sorted(set(classes)), nontrivial=nontrivial, fp=repr(case), dev=devs,
                    monitors={'rows_state_compares': compares},
                    sample=dict(array=array, dtypes=case['dtypes'], ops=case['ops'][:5], final_rows=model[:4]))
